@@ -531,7 +531,8 @@ def rule_amt(env, shared):
                     c = unref(c)
                     if c == bv:
                         continue
-                    ex = _extent(c, isbv)
+                    c, _ = _strip_max(c, isbv)
+                    ex = _extent(unref(c), isbv)
                     if ex:
                         n_used = ex[0]
                     else:
@@ -903,6 +904,9 @@ def rule_nonempty(env, shared):
                     for E in ends:
                         if E[0] == "range":
                             bv, evl = E[1], E[2]
+                            if p.lt(bv, evl):
+                                good = True
+                                why = "begin value < end value of the handed-out range is entailed"
                             # fact ne(B, evl - s) with bv = B + s
                             for f in facts:
                                 if f[0] == "ne" and len(f) == 3:
@@ -1337,6 +1341,8 @@ def rule_complete(env, shared):
                             clamp = ("unknown", "empty alternative of the range extent is not guarded by end <= begin value")
                             kindx = "val"
                         continue
+                    c, _sm = _strip_max(c, lambda x, bv=bv: unref(x) == bv)
+                    c = unref(c)
                     ex = _extent(c, lambda x, bv=bv: unref(x) == bv)
                     if ex and clamp is None:
                         clamp = ex[1]
